@@ -168,3 +168,4 @@ def check(ctx):
     _check_own(ctx)
     from .engine import import_rules
     import_rules(ctx, "c04", {"scan-compensation"})
+    import_rules(ctx, "c01", {"lookup-by-full-key", "lookup-result"})
